@@ -1081,3 +1081,4 @@ end Agd.Release
 #print axioms Agd.Tie.TrC07.flt_response_filled
 #print axioms Agd.Tie.TrC07.flt_put_drops_message
 #print axioms Agd.Tie.TrC07.ecs_set_stores_clone
+#print axioms Agd.Tie.TrC07.newRespDDR_copies_templates
